@@ -317,6 +317,8 @@ def mc_stage(pid, tier, cov):
     runs = []
     w = 8 if tier == "thorough" else 4
     insts = [("MC_WSQ_ord.cfg", None), ("MC_WSQ_plain.cfg", None), ("MC_WSQ_ord_stale.cfg", "NoViolation")]
+    if pid == "C06":
+        insts.append(("MC_WSQ_plain_consult_needs_room.cfg", "NoViolation"))
     if tier == "thorough":
         insts += [("MC_WSQ_ord3.cfg", None), ("MC_WSQ_ord_cap3.cfg", None)]
     for cfg, expect in insts:
